@@ -545,12 +545,28 @@ impl Universe {
         if rng.pct(20) {
             // look-alike keys: differ only by case, or one is a prefix / suffix of the other
             let base = names[0].clone();
+            // twins under the classic string hashes h*31+c / h*33+c: (x, y) -> (x+1, y-31)
+            let twin = |m: u8| -> String {
+                let b = base.as_bytes();
+                for i in 0..b.len().saturating_sub(1) {
+                    let (x, y) = (b[i], b[i + 1]);
+                    if y > m && ((x + 1) as char).is_ascii_alphabetic() && ((y - m) as char).is_ascii_alphanumeric() && (i > 0 || ((x + 1) as char).is_ascii_alphabetic()) {
+                        let mut v = b.to_vec();
+                        v[i] = x + 1;
+                        v[i + 1] = y - m;
+                        return String::from_utf8(v).unwrap_or_else(|_| base.clone());
+                    }
+                }
+                base.clone()
+            };
             let variants = [
                 base.to_uppercase(),
                 base.to_lowercase(),
                 format!("{base}Bar"),
                 format!("My{base}"),
                 format!("{base}_"),
+                twin(31),
+                twin(33),
             ];
             for _ in 0..rng.range(1, 2) {
                 let v = rng.pick(&variants).clone();
@@ -1169,10 +1185,12 @@ pub fn gen_doc(
     if heavy {
         // many hash-ordered warnings plus many pairs of diagnostics with the same start position
         // sizes around the usual thresholds of small-vector / cap / batching code: 16, 32, 64
-        let ni = match rng.below(10) {
-            0..=6 => rng.range(6, 16),
-            7 | 8 => rng.range(30, 40),
-            _ => rng.range(62, 72),
+        let ni = match rng.below(20) {
+            0..=12 => rng.range(6, 16),
+            13..=15 => rng.range(30, 40),
+            16 | 17 => rng.range(62, 72),
+            18 => rng.range(126, 136),
+            _ => rng.range(254, 264),
         };
         for i in 0..ni {
             imports.push(if rng.pct(70) {
